@@ -98,6 +98,7 @@ def reqGeometry : Prods :=
    ("geometry_expr", ["geometry_term"]), ("geometry_expr", ["geometry_expr", "union", "geometry_term"]),
    ("geometry_term", ["geometry_factor"]), ("geometry_term", ["geometry_term", "padding"]),
    ("geometry_term", ["geometry_term", "geometry_factory"]),
+   ("geometry_term", ["geometry_term", "COMPLEMENT", "geometry_factory"]),
    ("geometry_term", ["geometry_term", "padding", "geometry_factor"]),
    ("geometry_factor", ["COMPLEMENT", "geometry_factory"]), ("geometry_factor", ["geometry_factory"]),
    ("geometry_factory", ["(", "padding", "geometry_expr", ")"]), ("geometry_factory", ["(", "geometry_expr", ")"]),
@@ -140,6 +141,7 @@ theorem expr_of_term {w : List String} (ht : Der P "geometry_term" w) : Der P "g
     level, with any trailing gap -/
 theorem geom_der : ∀ e : Geom, e.WF = true →
     (e.isAtom = true → Der P "geometry_factory" e.classes) ∧
+    (∀ e' : Geom, e = Geom.compl e' → Der P "geometry_factory" e'.classes) ∧
     (e.level = 0 → Der P "geometry_factor" e.classes) ∧
     (e.level ≤ 1 → ∀ pad : Gap, pad.ok = true → Der P "geometry_term" (e.classes ++ pad.cls)) ∧
     (∀ pad : Gap, pad.ok = true → Der P "geometry_expr" (e.classes ++ pad.cls)) := by
@@ -152,13 +154,13 @@ theorem geom_der : ∀ e : Geom, e.WF = true →
       Der.rule (hP (by decide : ("geometry_factory", ["NUMBER"]) ∈ reqGeometry)) (.tok .nil)
     have ht : ∀ pad : Gap, pad.ok = true → Der P "geometry_term" (["NUMBER"] ++ pad.cls) :=
       fun pad hp => term_pad hP (term_of_factor hP (factor_of_factory hP hf)) pad hp
-    refine ⟨fun _ => hf, fun _ => factor_of_factory hP hf, fun _ => ht, fun pad hp => ?_⟩
+    refine ⟨fun _ => hf, (fun e' h => by cases h), fun _ => factor_of_factory hP hf, fun _ => ht, fun pad hp => ?_⟩
     exact expr_of_term hP (ht pad hp)
   | paren g1 e g2 ih =>
     intro hwf
     simp [Geom.WF] at hwf
     obtain ⟨⟨h1, h2⟩, he⟩ := hwf
-    have hexpr := (ih he).2.2.2 g2 h2
+    have hexpr := (ih he).2.2.2.2 g2 h2
     have hf : Der P "geometry_factory" (Geom.paren g1 e g2).classes := by
       by_cases hg : g1 = []
       · subst hg
@@ -169,7 +171,7 @@ theorem geom_der : ∀ e : Geom, e.WF = true →
           (.tok (.nt hp (.nt hexpr (.tok .nil))))).cast (by simp [Geom.classes])
     have ht : ∀ pad : Gap, pad.ok = true → Der P "geometry_term" ((Geom.paren g1 e g2).classes ++ pad.cls) :=
       fun pad hp => term_pad hP (term_of_factor hP (factor_of_factory hP hf)) pad hp
-    exact ⟨fun _ => hf, fun _ => factor_of_factory hP hf, fun _ => ht,
+    exact ⟨fun _ => hf, (fun e' h => by cases h), fun _ => factor_of_factory hP hf, fun _ => ht,
       fun pad hp => expr_of_term hP (ht pad hp)⟩
   | compl e ih =>
     intro hwf
@@ -181,41 +183,52 @@ theorem geom_der : ∀ e : Geom, e.WF = true →
         (.tok (.nt hfy .nil))).cast (by simp [Geom.classes])
     have ht : ∀ pad : Gap, pad.ok = true → Der P "geometry_term" ((Geom.compl e).classes ++ pad.cls) :=
       fun pad hp => term_pad hP (term_of_factor hP hf) pad hp
-    exact ⟨fun h => by simp [Geom.isAtom] at h, fun _ => hf, fun _ => ht,
+    exact ⟨(fun h => by simp [Geom.isAtom] at h), (fun e' h => by cases h; exact hfy), fun _ => hf, fun _ => ht,
       fun pad hp => expr_of_term hP (ht pad hp)⟩
   | inter l gap r ihl ihr =>
     intro hwf
     simp [Geom.WF] at hwf
     obtain ⟨⟨⟨⟨⟨hl, hr⟩, hll⟩, hrl⟩, hgok⟩, hsep⟩ := hwf
     have hterm : Der P "geometry_term" (Geom.inter l gap r).classes := by
+      have h1 := (ihl hl).2.2.2.1 hll [] (by decide)
       by_cases hg : gap = []
       · subst hg
-        have hra : r.isAtom = true := by
-          rcases hsep with h | h
+        have hcases : r.isAtom = true ∨ r.isCompl = true := by
+          rcases hsep with (h | h) | h
           · simp at h
-          · exact h.1
-        have h1 := (ihl hl).2.2.1 hll [] (by decide)
-        have h2 := (ihr hr).1 hra
-        exact (Der.rule (hP (by decide : ("geometry_term", ["geometry_term", "geometry_factory"]) ∈ reqGeometry))
-          (.nt h1 (.nt h2 .nil))).cast (by simp [Geom.classes, Gap.cls])
-      · have h1 := (ihl hl).2.2.1 hll [] (by decide)
-        have hp := pad_der hpad gap hgok hg
-        have h2 := (ihr hr).2.1 hrl
+          · exact .inl h.1
+          · exact .inr h.1
+        rcases hcases with hra | hrc
+        · have h2 := (ihr hr).1 hra
+          exact (Der.rule (hP (by decide : ("geometry_term", ["geometry_term", "geometry_factory"]) ∈ reqGeometry))
+            (.nt h1 (.nt h2 .nil))).cast (by simp [Geom.classes, Gap.cls])
+        · cases r with
+          | compl e' =>
+            have h2 := (ihr hr).2.1 e' rfl
+            exact (Der.rule (hP (by decide :
+              ("geometry_term", ["geometry_term", "COMPLEMENT", "geometry_factory"]) ∈ reqGeometry))
+              (.nt h1 (.tok (.nt h2 .nil)))).cast (by simp [Geom.classes, Gap.cls])
+          | surf _ => simp [Geom.isCompl] at hrc
+          | paren _ _ _ => simp [Geom.isCompl] at hrc
+          | inter _ _ _ => simp [Geom.isCompl] at hrc
+          | union _ _ _ _ => simp [Geom.isCompl] at hrc
+      · have hp := pad_der hpad gap hgok hg
+        have h2 := (ihr hr).2.2.1 hrl
         exact (Der.rule (hP (by decide : ("geometry_term", ["geometry_term", "padding", "geometry_factor"]) ∈ reqGeometry))
           (.nt h1 (.nt hp (.nt h2 .nil)))).cast (by simp [Geom.classes, Gap.cls])
     have ht : ∀ pad : Gap, pad.ok = true → Der P "geometry_term" ((Geom.inter l gap r).classes ++ pad.cls) :=
       fun pad hp => term_pad hP hterm pad hp
-    exact ⟨fun h => by simp [Geom.isAtom] at h, fun h => by simp [Geom.level] at h, fun _ => ht,
-      fun pad hp => expr_of_term hP (ht pad hp)⟩
+    exact ⟨(fun h => by simp [Geom.isAtom] at h), (fun e' h => by cases h), (fun h => by simp [Geom.level] at h),
+      fun _ => ht, fun pad hp => expr_of_term hP (ht pad hp)⟩
   | union l g1 g2 r ihl ihr =>
     intro hwf
     simp [Geom.WF] at hwf
     obtain ⟨⟨⟨⟨hl, hr⟩, hrl⟩, h1⟩, h2⟩ := hwf
-    refine ⟨fun h => by simp [Geom.isAtom] at h, fun h => by simp [Geom.level] at h,
-      fun h => by simp [Geom.level] at h, fun pad hp => ?_⟩
-    have hle := (ihl hl).2.2.2 g1 h1
+    refine ⟨(fun h => by simp [Geom.isAtom] at h), (fun e' h => by cases h), (fun h => by simp [Geom.level] at h),
+      (fun h => by simp [Geom.level] at h), fun pad hp => ?_⟩
+    have hle := (ihl hl).2.2.2.2 g1 h1
     have hu := union_der hP g2 h2
-    have hri := (ihr hr).2.2.1 hrl pad hp
+    have hri := (ihr hr).2.2.2.1 hrl pad hp
     exact (Der.rule (hP (by decide : ("geometry_expr", ["geometry_expr", "union", "geometry_term"]) ∈ reqGeometry))
       (.nt hle (.nt hu (.nt hri .nil)))).cast (by simp [Geom.classes, List.append_assoc])
 
@@ -476,6 +489,10 @@ def reqCell : Prods :=
    ("number_sequence", ["number_sequence", "(", "number_sequence", ")", "padding"]),
    ("number_sequence", ["number_sequence", ":", "numerical_phrase"]),
    ("number_sequence", ["(", "number_sequence", ")"]), ("number_sequence", ["(", "number_sequence", ")", "padding"]),
+   ("number_sequence", ["number_sequence", "(", "padding", "number_sequence", ")"]),
+   ("number_sequence", ["number_sequence", "(", "padding", "number_sequence", ")", "padding"]),
+   ("number_sequence", ["(", "padding", "number_sequence", ")"]),
+   ("number_sequence", ["(", "padding", "number_sequence", ")", "padding"]),
    ("identifier_phrase", ["NUMBER"]), ("identifier_phrase", ["NUMBER", "padding"]),
    ("null_ident_phrase", ["NULL"]), ("null_ident_phrase", ["NULL", "padding"]),
    ("material", ["null_ident_phrase"]), ("material", ["identifier_phrase", "number_phrase"]),
@@ -501,29 +518,49 @@ theorem pval_der (v : PVal) (hwf : v.WF = true) :
   | nums es =>
     simp [PVal.WF] at hwf
     exact entries_der hnum es hwf.2 hwf.1
-  | numsParen es inner after =>
+  | numsParen es opened inner after =>
     simp [PVal.WF] at hwf
-    obtain ⟨⟨⟨⟨h1, h2⟩, h3⟩, h4⟩, h5⟩ := hwf
+    obtain ⟨⟨⟨⟨⟨h1, h2⟩, hop⟩, h3⟩, h4⟩, h5⟩ := hwf
     have he := entries_der hnum es h2 h1
     have hi := entries_der hnum inner h4 h3
-    by_cases hg : after = []
-    · subst hg
-      exact (Der.rule (hP (by decide : ("number_sequence", ["number_sequence", "(", "number_sequence", ")"]) ∈ reqCell))
-        (.nt he (.tok (.nt hi (.tok .nil))))).cast (by simp [PVal.classes, Gap.cls])
-    · have hp := pad_der hpad after h5 hg
-      exact (Der.rule (hP (by decide : ("number_sequence", ["number_sequence", "(", "number_sequence", ")", "padding"]) ∈ reqCell))
-        (.nt he (.tok (.nt hi (.tok (.nt hp .nil)))))).cast (by simp [PVal.classes])
-  | paren inner after =>
+    by_cases ho : opened = []
+    · subst ho
+      by_cases hg : after = []
+      · subst hg
+        exact (Der.rule (hP (by decide : ("number_sequence", ["number_sequence", "(", "number_sequence", ")"]) ∈ reqCell))
+          (.nt he (.tok (.nt hi (.tok .nil))))).cast (by simp [PVal.classes, Gap.cls])
+      · have hp := pad_der hpad after h5 hg
+        exact (Der.rule (hP (by decide : ("number_sequence", ["number_sequence", "(", "number_sequence", ")", "padding"]) ∈ reqCell))
+          (.nt he (.tok (.nt hi (.tok (.nt hp .nil)))))).cast (by simp [PVal.classes, Gap.cls])
+    · have hpo := pad_der hpad opened hop ho
+      by_cases hg : after = []
+      · subst hg
+        exact (Der.rule (hP (by decide : ("number_sequence", ["number_sequence", "(", "padding", "number_sequence", ")"]) ∈ reqCell))
+          (.nt he (.tok (.nt hpo (.nt hi (.tok .nil)))))).cast (by simp [PVal.classes, Gap.cls])
+      · have hp := pad_der hpad after h5 hg
+        exact (Der.rule (hP (by decide : ("number_sequence", ["number_sequence", "(", "padding", "number_sequence", ")", "padding"]) ∈ reqCell))
+          (.nt he (.tok (.nt hpo (.nt hi (.tok (.nt hp .nil))))))).cast (by simp [PVal.classes])
+  | paren opened inner after =>
     simp [PVal.WF] at hwf
-    obtain ⟨⟨h3, h4⟩, h5⟩ := hwf
+    obtain ⟨⟨⟨hop, h3⟩, h4⟩, h5⟩ := hwf
     have hi := entries_der hnum inner h4 h3
-    by_cases hg : after = []
-    · subst hg
-      exact (Der.rule (hP (by decide : ("number_sequence", ["(", "number_sequence", ")"]) ∈ reqCell))
-        (.tok (.nt hi (.tok .nil)))).cast (by simp [PVal.classes, Gap.cls])
-    · have hp := pad_der hpad after h5 hg
-      exact (Der.rule (hP (by decide : ("number_sequence", ["(", "number_sequence", ")", "padding"]) ∈ reqCell))
-        (.tok (.nt hi (.tok (.nt hp .nil))))).cast (by simp [PVal.classes])
+    by_cases ho : opened = []
+    · subst ho
+      by_cases hg : after = []
+      · subst hg
+        exact (Der.rule (hP (by decide : ("number_sequence", ["(", "number_sequence", ")"]) ∈ reqCell))
+          (.tok (.nt hi (.tok .nil)))).cast (by simp [PVal.classes, Gap.cls])
+      · have hp := pad_der hpad after h5 hg
+        exact (Der.rule (hP (by decide : ("number_sequence", ["(", "number_sequence", ")", "padding"]) ∈ reqCell))
+          (.tok (.nt hi (.tok (.nt hp .nil))))).cast (by simp [PVal.classes, Gap.cls])
+    · have hpo := pad_der hpad opened hop ho
+      by_cases hg : after = []
+      · subst hg
+        exact (Der.rule (hP (by decide : ("number_sequence", ["(", "padding", "number_sequence", ")"]) ∈ reqCell))
+          (.tok (.nt hpo (.nt hi (.tok .nil))))).cast (by simp [PVal.classes, Gap.cls])
+      · have hp := pad_der hpad after h5 hg
+        exact (Der.rule (hP (by decide : ("number_sequence", ["(", "padding", "number_sequence", ")", "padding"]) ∈ reqCell))
+          (.tok (.nt hpo (.nt hi (.tok (.nt hp .nil)))))).cast (by simp [PVal.classes])
   | lattice a b g1 c d g2 e f g3 us =>
     simp [PVal.WF] at hwf
     obtain ⟨⟨⟨⟨h1, h2⟩, h3⟩, h4⟩, _⟩ := hwf
@@ -571,7 +608,7 @@ theorem cell_der (c : CellCard) (hwf : c.WF = true) : Der P "cell" c.classes := 
   obtain ⟨⟨⟨⟨⟨⟨⟨hlead, hg0⟩, hg1⟩, hg2⟩, hgeom⟩, hmat⟩, hps⟩, hsep⟩ := hwf
   have hid : Der P "identifier_phrase" ("NUMBER" :: c.g0.cls) :=
     phrase_der hpad (hP (by decide)) (hP (by decide)) c.g0 (req_split hg0).1
-  have hgeo' := (geom_der hgeo c.geometry hgeom).2.2.2 c.g2 hg2
+  have hgeo' := (geom_der hgeo c.geometry hgeom).2.2.2.2 c.g2 hg2
   -- the material, with the gap g1 that follows it
   have hmatd : ∃ wm, Der P "material" wm ∧
       c.classes = c.lead.cls ++ ("NUMBER" :: c.g0.cls) ++ wm ++ (c.geometry.classes ++ c.g2.cls) ++
